@@ -52,13 +52,17 @@ pub fn gen_prog_tail(rng: &mut Rng, target_scaled: u64, plant: u8, tail: Option<
         a.mov_l_imm(0, 113);
         a.mov_l_label(1, "sh_args");
         a.trapa(0);
-        a.mov_b_imm(8, 40 + rng.below(200) as u8);
+        // the compare-match period must be much longer than the handler (about 600 charged states),
+        // otherwise the guest live-locks in its own interrupt: /64 with TCORA >= 40, or /8 with
+        // TCORA >= 200
+        let slow = rng.chance(1, 2);
+        a.mov_b_imm(8, if slow { 40 + rng.below(200) as u8 } else { 200 + rng.below(55) as u8 });
         a.mov_b_to_abs8(8, 0x84);
         a.mov_b_imm(8, 0xff);
         a.mov_b_to_abs8(8, 0x86);
         a.mov_b_imm(8, 0);
         a.mov_b_to_abs8(8, 0x88);
-        a.mov_b_imm(8, 0x48 | *rng.pick(&[1u8, 2]) | if rng.chance(1, 2) { 0x20 } else { 0 });
+        a.mov_b_imm(8, 0x48 | if slow { 2 } else { 1 } | if rng.chance(1, 2) { 0x20 } else { 0 });
         a.mov_b_to_abs8(8, 0x80);
     }
     for r in 0..5u8 {
@@ -270,6 +274,7 @@ pub struct Trace {
     pub crossed: u64,
     pub last_states: u32,
     pub stopped: bool,
+    pub gave_up: bool,
 }
 
 pub struct RunResult {
@@ -279,6 +284,7 @@ pub struct RunResult {
     pub digest: u64,
     pub msgs: Vec<String>,
     pub ticks: u64,
+    pub gave_up: bool,
 }
 
 fn timer_regs(cpu: &Cpu) -> [u8; 5] {
@@ -311,7 +317,9 @@ pub fn traced_run(elf_path: &str, args: &str, with_twin: bool, max_ticks: u64) -
             return;
         }
         if t.ticks > max_ticks {
-            t.findings.push(("watchdog".into(), format!("run loop exceeded {} iterations", max_ticks)));
+            // the twin runs in lock step and has not finished either: the guest program simply does
+            // not terminate within the limit - nothing can be concluded (not a violation)
+            t.gave_up = true;
             t.stopped = true;
             let _ = stop_tx.send("cmd:stop".to_string());
             return;
@@ -453,7 +461,7 @@ pub fn traced_run(elf_path: &str, args: &str, with_twin: bool, max_ticks: u64) -
             findings.push((aspect.into(), format!("message {} is {:?}, expected {:?} ({} emitted, {} expected, {} thresholds crossed)", i, msgs.get(i), t.expected_msgs.get(i), msgs.len(), t.expected_msgs.len(), t.crossed)));
         }
     }
-    let res = RunResult { end, regs: rig.cpu.er, state_sum: rig.cpu.verif_state_sum() as u64, digest: mem_digest(&rig.cpu), msgs, ticks: t.ticks };
+    let res = RunResult { end, regs: rig.cpu.er, state_sum: rig.cpu.verif_state_sum() as u64, digest: mem_digest(&rig.cpu), msgs, ticks: t.ticks, gave_up: t.gave_up };
     (res, findings)
 }
 
@@ -482,8 +490,13 @@ pub fn c13_case(rep: &mut Report, seed: u64, verbose: bool) -> bool {
     std::fs::write(&path, &elf).expect("write elf");
     let args = if rng.chance(1, 2) { "a bc".to_string() } else { String::new() };
     let replay = format!("check=C13 kind=runloop seed={}", seed);
-    let (res, findings) = traced_run(&path, &args, true, 40_000_000);
+    let (res, findings) = traced_run(&path, &args, true, 6_000_000);
     rep.evaluations += 1;
+    if res.gave_up {
+        rep.count("programs_not_finished_within_iteration_limit (inconclusive, skipped)", 1);
+        let _ = std::fs::remove_file(&path);
+        return false;
+    }
     rep.count("run_loop_iterations_traced", res.ticks);
     rep.count("messages_checked", res.msgs.len() as u64);
     let syncs = res.msgs.iter().filter(|m| m.starts_with("sync:")).count() as u64;
@@ -523,7 +536,7 @@ pub fn c13_case(rep: &mut Report, seed: u64, verbose: bool) -> bool {
                     }));
                 }
             }
-            let (r, _) = traced_run(&path, &args, false, 40_000_000);
+            let (r, _) = traced_run(&path, &args, false, 6_000_000);
             busy.store(false, std::sync::atomic::Ordering::Relaxed);
             for h in handles {
                 let _ = h.join();
@@ -633,7 +646,7 @@ pub fn binary_determinism(rep: &mut Report, seed: u64) {
 
 pub fn c13(rep: &mut Report, cfg: &Cfg) {
     let mut rng = cfg.rng("C13");
-    let n = cfg.share(cfg.n(24, 160)).max(2);
+    let n = cfg.share(cfg.n(24, 480)).max(2);
     for _ in 0..n {
         let seed = rng.next();
         c13_case(rep, seed, false);
